@@ -30,6 +30,11 @@ func (c *Ctx) perFieldMatchers() []*ssa.Function {
 	var out []*ssa.Function
 	seen := map[*ssa.Function]bool{}
 	for _, s := range c.CallsTo(fnShouldSkip) {
+		// the chain answers with an assignment: (gmodel.Assignment, error)
+		res := s.Fn.Signature.Results()
+		if res.Len() != 2 || !strings.HasSuffix(res.At(0).Type().String(), "generator/model.Assignment") {
+			continue
+		}
 		if s.Fn.Pkg != nil && s.Fn.Pkg.Pkg.Path() == mod+"/pkg/builder" && !seen[s.Fn] {
 			seen[s.Fn] = true
 			out = append(out, s.Fn)
@@ -203,45 +208,93 @@ func C06(c *Ctx) {
 	c.converterResolutionRule("C06-6")
 	c.toggleCasesRule("C06-9")
 
-	r.Rule("C06-4", "a notation on a nested destination path can only be honoured under an assignable enclosing struct if the per-field chain tests notation paths by prefix before assigning the struct wholesale: some prefix test (IdentMatcher.PartialMatch / strings.HasPrefix on the destination path) must be reachable from the per-field matcher")
-	for _, fn := range pfms {
-		has := false
+	r.Rule("C06-4", "nested-path notations: in the candidate handler a struct-typed destination field is assigned as a whole only if the look-ahead predicate (a bool function that prefix-tests the destination path against every explicit-notation list and asks ShouldSkip for the members) answered false; that predicate answers false only after all four lists were searched")
+	// prefix tests: functions calling strings.HasPrefix on IdentMatcher.pattern, or PartialMatch
+	prefixFns := map[*ssa.Function]bool{}
+	for _, s := range c.Calls(func(n string) bool { return n == "strings.HasPrefix" }) {
+		for _, a := range s.Args() {
+			if c.O.Of(a).Contains(func(t *core.Term) bool { return t.IsField("option.IdentMatcher.pattern") || t.IsField("option.IdentMatcher.paths") }) {
+				prefixFns[s.Fn] = true
+			}
+		}
+	}
+	callsAny := func(fn *ssa.Function, pred func(*ssa.Function, string) bool) bool {
+		found := false
+		var visit func(f *ssa.Function, d int)
 		seen := map[*ssa.Function]bool{}
-		var walk func(f *ssa.Function, d int)
-		walk = func(f *ssa.Function, d int) {
-			if f == nil || seen[f] || d > 6 || f.Blocks == nil {
+		visit = func(f *ssa.Function, d int) {
+			if f == nil || seen[f] || d > 3 || found {
 				return
 			}
 			seen[f] = true
 			for _, b := range f.Blocks {
 				for _, in := range b.Instrs {
 					if mc, ok := in.(*ssa.MakeClosure); ok {
-						walk(mc.Fn.(*ssa.Function), d+1)
+						visit(mc.Fn.(*ssa.Function), d+1)
 					}
-					ci, ok := in.(ssa.CallInstruction)
-					if !ok {
-						continue
-					}
-					name := core.CalleeName(ci.Common())
-					if name == fnPartialMatch {
-						has = true
-					}
-					if name == "strings.HasPrefix" {
-						for _, a := range ci.Common().Args {
-							if c.O.Of(a).Contains(func(t *core.Term) bool { return t.IsCallTo(invMatcher) }) {
-								has = true
-							}
+					if ci, ok := in.(ssa.CallInstruction); ok {
+						callee := ci.Common().StaticCallee()
+						if pred(callee, core.CalleeName(ci.Common())) {
+							found = true
 						}
-					}
-					if callee := ci.Common().StaticCallee(); callee != nil && core.InModule(pkgOf(callee)) {
-						walk(callee, d+1)
+						if callee != nil && core.InModule(pkgOf(callee)) && callee != fn {
+							visit(callee, d+1)
+						}
 					}
 				}
 			}
 		}
-		walk(fn, 0)
-		r.Check("C06-4", FnKey(fn)+":nested-paths", c.Pos(fn.Pos()), has,
-			"notations naming a nested destination path (e.g. `:skip In.A`) are never looked at when the enclosing struct field `In` is assignable as a whole: no prefix test is reachable from the per-field chain")
+		visit(fn, 0)
+		return found
+	}
+	var lookaheads []*ssa.Function
+	for _, fn := range c.P.Funcs() {
+		p := pkgOf(fn)
+		if p == nil || p.Path() != mod+"/pkg/builder" || fn.Parent() != nil || fn.Signature.Results().Len() != 1 || fn.Signature.Results().At(0).Type().String() != "bool" {
+			continue
+		}
+		if callsAny(fn, func(f *ssa.Function, _ string) bool { return f != nil && prefixFns[f] }) && callsAny(fn, func(_ *ssa.Function, n string) bool { return n == fnShouldSkip }) {
+			lookaheads = append(lookaheads, fn)
+		}
+	}
+	r.Check("C06-4", "lookahead-predicate", "pkg/builder", len(lookaheads) >= 1,
+		"notations naming a nested destination path (e.g. `:skip In.A`) are never looked at when the enclosing struct field `In` is assignable as a whole: no function prefix-tests the destination path against the explicit-notation lists")
+	for _, la := range lookaheads {
+		fl := c.Reach(la).RetCond(0, false)
+		for _, l := range explicitLists {
+			r.Check("C06-4", FnKey(la)+":false⇒searched:"+l, c.Pos(la.Pos()), len(fl) > 0 && fl.Implies(c.M(false, listExhausted(l))), "the look-ahead can answer `no notation below` without having searched Options."+l+"; false-condition: "+fl.Describe(c.O))
+		}
+	}
+	if len(lookaheads) >= 1 {
+		isLA := func(t *core.Term) bool {
+			for _, la := range lookaheads {
+				if cv, ok := t.V.(*ssa.Call); ok && cv.Call.StaticCallee() == la {
+					return true
+				}
+			}
+			return false
+		}
+		nw := 0
+		if sf := c.P.LookupType("/pkg/generator/model", "SimpleField"); sf != nil {
+			for _, dm := range c.defaultMatchers() {
+				for _, a := range c.Lits(sf) {
+					if a.Parent().Parent() != dm {
+						continue
+					}
+					rhs := LitFields(a)["RHS"]
+					if rhs == nil || !c.O.Of(rhs).Contains(func(t *core.Term) bool { return t.IsCallTo("(*" + pBld + "assignmentBuilder).castNode") }) {
+						continue
+					}
+					nw++
+					d := c.ReachOf(a)
+					notStruct := c.M(false, func(t *core.Term) bool { return t.IsCallTo(fnIsStruct) && t.Args[0].IsCallTo(invExprType) })
+					noNotation := c.M(false, isLA)
+					r.Check("C06-4", FnKey(a.Parent())+":wholesale-only-without-nested-notations", c.InstrPos(a), d.Implies(notStruct, noNotation),
+						"a struct-typed destination field can be assigned as a whole although a notation addresses one of its members; reach: "+d.Describe(c.O))
+				}
+			}
+		}
+		r.Floor("C06-4", "wholesale assignment sites in candidate handlers", nw, 1)
 	}
 }
 
